@@ -132,7 +132,7 @@ fn tree_alphabet() -> Vec<TreeSpec> {
         c("conflict-modify-delete", vec![("a", f("x\nA\n"))], vec![("a", f("x\nO\n"))], vec![], vec!["a"]),
         c("conflict-add-add-exec", vec![("a", fx("A\n"))], vec![], vec![("a", f("B\n"))], vec!["a"]),
         c("conflict-file-symlink", vec![("a", f("A\n"))], vec![], vec![("a", E::L("d"))], vec!["a"]),
-        c("conflict-in-dir", vec![("d/c", f("A\n"))], vec![("d/c", f("O\n"))], vec![("d/c", f("B\n"))], vec!["d/c"]),
+        c("conflict-in-dir", vec![("d/c", fx("A\n"))], vec![("d/c", fx("O\n"))], vec![("d/c", fx("B\n"))], vec!["d/c"]),
         c("conflict-file-dir", vec![("d", f("file\n"))], vec![], vec![("d/c", f("1\n"))], vec!["d"]),
         c("conflict-exec-only", vec![("a", fx("1\n"))], vec![], vec![("a", f("1\n"))], vec!["a"]),
     ]
